@@ -7,7 +7,7 @@
 From Coq Require Import String.
 From Coq Require Import List NArith ZArith Lia Bool Arith.
 From Coq Require Import Init.Byte.
-From FFS Require Import Base.Res Base.Bytes Base.Lit Base.Keccak EthTypes.Model EthTypes.Spec.
+From FFS Require Import Base.Res Base.Bytes Base.Lit Base.Keccak EthTypes.Model EthTypes.ModelMarshal EthTypes.Spec.
 Import ListNotations.
 Local Open Scope N_scope.
 
@@ -31,6 +31,11 @@ Inductive case :=
 (* hex bytes parse / print *)
 | CBytes (input : bdsl) (lexs : option bdsl) (cls : nat) (out : bdsl) (expect : N) (exp : bdsl)
 | CBytesPrint (h : bdsl) (splain s0x : bdsl)
+(* MarshalJSON of the five address / byte-string types called directly (wave 6): cls 0 = all returned a text,
+   1 = one of them returned an error, 2 = panic; the texts of Address0xHex, AddressWithChecksum, AddressPlainHex /
+   HexBytesPlain, HexBytes0xPrefix *)
+| CAddrMarshal (a : bdsl) (cls : nat) (j0x jchk jplain : bdsl)
+| CBytesMarshal (h : bdsl) (cls : nat) (jplain j0x : bdsl)
 (* the modelled library functions themselves (math/big called directly by the harness) *)
 | CLibInt (s : bdsl) (ok : bool) (v : Z)
 | CLibFloat (s : bdsl) (ok : bool)
@@ -115,6 +120,26 @@ Definition check_case (c : case) : N :=
       if negb (bytes_eqb (bexpand s0x) (t_0x ++ lower_hex hb)) then 15 else
       if negb (bytes_eqb (HexBytesPlain_String hb) (bexpand splain)) then 4 else
       if negb (bytes_eqb (HexBytes0xPrefix_String hb) (bexpand s0x)) then 4 else 0
+  | CAddrMarshal a cls j0x jchk jplain =>
+      let ab := bexpand a in
+      if (cls =? 2)%nat then 12 else
+      if negb (cls =? 0)%nat then 15 else
+      (* documented form: the String() text between double quotes; the checksum one is EIP-55 (spec side) *)
+      if negb (bytes_eqb (bexpand jchk) (quote (eip55 keccak256 ab))) then 15 else
+      if negb (bytes_eqb (bexpand j0x) (quote (t_0x ++ lower_hex ab))) then 15 else
+      if negb (bytes_eqb (bexpand jplain) (quote (lower_hex ab))) then 15 else
+      (* model side (EthTypes/ModelMarshal.v) *)
+      if negb (res_matches_bytes (AddressWithChecksum_MarshalJSON keccak256 ab) 0 (bexpand jchk)) then 2 else
+      if negb (bytes_eqb (Address0xHex_MarshalJSON ab) (bexpand j0x)) then 2 else
+      if negb (bytes_eqb (AddressPlainHex_MarshalJSON ab) (bexpand jplain)) then 2 else 0
+  | CBytesMarshal h cls jplain j0x =>
+      let hb := bexpand h in
+      if (cls =? 2)%nat then 12 else
+      if negb (cls =? 0)%nat then 15 else
+      if negb (bytes_eqb (bexpand jplain) (quote (lower_hex hb))) then 15 else
+      if negb (bytes_eqb (bexpand j0x) (quote (t_0x ++ lower_hex hb))) then 15 else
+      if negb (bytes_eqb (HexBytesPlain_MarshalJSON hb) (bexpand jplain)) then 2 else
+      if negb (bytes_eqb (HexBytes0xPrefix_MarshalJSON hb) (bexpand j0x)) then 2 else 0
   | CLibInt s ok v =>
       match int_set_string0 (bexpand s) with
       | Some z => if ok && (z =? v)%Z then 0 else 5
